@@ -34,4 +34,25 @@ CHECKS = {
    text='Every transformation sequence (copy, pickle, eliminate_1to1_forks; length <= 2/3) on the corpus and every distinct library implementation of five libraries (all pins connected, each single input or '
         'output open, fan-out variant, post-transformations), plus custom implementation shapes with all pin subsets: z3 decides function preservation for all stimuli; s_nodes name lists compared exactly.',
    note='Trusted: ref2 + hierarchical oracle (open pin = 0), z3. Instances built with the Circuit API. Known findings: latch cells whose names lack "latch" become state elements on resolution; sized AND/NAND with trailing open pin; state cell with all outputs open is removed.'),
+ 'C03': dict(engine='E2-symx', category='model_checking', design_ref='DESIGN.md §3, §4, §5 C03',
+   technique='forking symbolic execution (z3, real arithmetic) of the real _wave_eval / s_to_c / whole WaveSim runs; kernel lemmas L-WF + L-BOOL as inductive step; QF_FP float lemmas; float32 replay of every path',
+   text='Every feasible path of one call of the real waveform kernel on arbitrary well-formed operand waveforms (symbolic times, 4 symbolic delays per line, capacities that force the overflow branch) is explored and z3/'
+        'the path structure decide: output well-formed inside its region, starts at LUT(initial values), ends (parity) at LUT(final values) - for all 33 primitives. Boundary lemma for s_to_c (CPU and GPU kernel) and end-to-end '
+        'runs through the public API on small circuits close the induction over the op list, which itself is a paper argument.',
+   note='Bounded: K transitions per input by arity, caps {4,8,16}, times/delays real in bounded ranges, float32 modelled exactly on a dyadic grid (lemmas F1-F3). Lifting to all circuits is a paper induction (DESIGN §4) relying on C07/C08.'),
+ 'C04': dict(engine='E2-symx', category='model_checking', design_ref='DESIGN.md §4, §5 C04',
+   technique='forking symbolic execution of the real _wave_eval with product runs (t vs t+delta, x2, x1/2); z3 validity of window membership, exact shift/scale, strict monotonicity per path; STA windows end-to-end',
+   text='Kernel lemmas on all paths of the real kernel: each emitted transition is an input transition plus one of that line\'s delays (hence inside the static-timing window by induction), a symbolic shift delta of all inputs '
+        'shifts the output by exactly delta, scaling by 2 and 1/2 scales it, polarity-independent delays give strictly increasing timestamps. Static-timing windows are additionally checked end-to-end on small circuits.',
+   note='Bounded as C03; shifts |delta| <= 500, power-of-two factors 2 and 1/2 only; exact real arithmetic stands for float32 on the dyadic grid named in the statement.'),
+ 'C05': dict(engine='E2-symx + E1-lanes', category='model_checking', design_ref='DESIGN.md §4 L-HAZ, §5 C05',
+   technique='forking symbolic execution of the real _wave_eval against the result of the real LogicSim(m=8) for every abstract input tuple the stimulus shape conforms to; end-to-end runs of both simulators',
+   text='For every primitive and every abstract input tuple over {0,1,R,F,P,N} (within the K bound) all paths of the real kernel with symbolic times/delays are explored: initial/final values agree with the 8-valued result and a '
+        'plain 0/1 result implies no transition at all. End-to-end: small circuits, stimuli over {0,1,R,F}, WaveSim and WaveSimCuda, options default / c_reuse / c_reuse+strip_forks.',
+   note='Bounded as C03. The gate-by-gate lifting (conformance is preserved) is a paper induction confirmed end-to-end.'),
+ 'C13': dict(engine='E2-symx', category='model_checking', design_ref='DESIGN.md §4 L-OVL/L-WSA, §5 C13',
+   technique='forking symbolic execution of the real wave_capture_cpu/gpu (via c_to_s with symbolic capture time), of _wave_eval in product with capacity 64, and of propagation with symbolic integer accumulation weights',
+   text='All paths: capture results equal what a well-formed waveform with <= 3/4 symbolic entries encodes (initial, earliest, latest, final, value before T, overflow mark) for CPU and GPU kernels; returned rise/fall counts equal '
+        'the emitted transitions; overflow marker clear implies identity with the unlimited-capacity waveform and operand markers propagate; accumulators equal the weighted transition counts for symbolic weights.',
+   note='sd > 0 capture outside the claim. Accumulator index patterns enumerated. Bounded as C03.'),
 }
